@@ -31,7 +31,8 @@ class P(MetProp):
         op = rng.choice(list(mgen.ROP) + ["quantile_over_time", "quantile_over_time", "first_over_time", "last_over_time"])
         rng_ns = rng.choice([1, 2, 2, 3, 5]) * S if rng.random() < 0.8 else rng.choice([S // 2, 3 * S // 2])
         off = rng.choice([0, 0, 0, S, 2 * S, S // 2])
-        step = rng.choice([S, S, 2 * S, 3 * S, 5 * S, S // 2])
+        # steps whose ratio to the grid length is not exact in binary floating point (0.3/0.1, 3.3/1.1): the grid is integer arithmetic on nanoseconds
+        step = rng.choice([S, S, 2 * S, 3 * S, 5 * S, S // 2, S // 10, 11 * S // 10, 3 * S // 10, 7 * S // 10])
         k = rng.randint(2, 6)
         overlap = rng.random() < 0.5
         longr = (not overlap) and rng.random() < 0.2
